@@ -783,6 +783,10 @@ func (a *NXActionCTNAT) UnmarshalBinary(data []byte) error {
 	a.NXActionHeader = new(NXActionHeader)
 	err := a.NXActionHeader.UnmarshalBinary(data[n:])
 	n += int(a.NXActionHeader.Len())
+	if a.Length%8 != 0 {
+		// Len() rounds the length up to a multiple of 8; for 65529..65535 that wraps to 0
+		return errors.New("the NXActionCTNAT length is not a multiple of 8")
+	}
 	if len(data) < int(a.Len()) {
 		return errors.New("the []byte is too short to unmarshal a full NXActionCTNAT message")
 	}
